@@ -224,7 +224,7 @@ a violation of a listed statement was first given corpus until a check reported 
 | decoders drop a non-EOF read error delivered with data; json encoder drops errors of a sink that fails only once | C, D | outside the statements (C18: `io.EOF`; C16: a sink that keeps failing) | — | — |
 | `OnByte(b >= 128)` written as an (invalid) UBJSON char | D | genuine (C07: valid for an independent draft-12 reader); my reference had been lenient | C07, C08, C10 (after the reference was made strict) | `e8d4695` |
 | JSON lexical leniency (`0123`, `+1`, `.5`, a quote escaped as backslash-apostrophe, vertical tab as blank); invalid UTF-8 copied into CBOR / UBJSON strings | C, D | C04 demands rejection of wrong *structure* only; C01 demands byte-exact strings | — | — |
-| inlined `*Self` field: stack overflow when the folder is compiled | A, F | real, pathological; not explored | — | not repaired (see §8) |
+| inlined `*Self` field: stack overflow when the folder is compiled | A, F | genuine (C12 quantifies over every tag option on fields of every kind) | C12, C11 (`SeedChain`) | `574050b` |
 
 No sub-agent found a violation of C15, C19 or C20, nor of chunking independence (C02), conformance on well-formed input
 (C04-C06), the round trips (C01), or the visitor contract on accepted input (C09).
